@@ -265,6 +265,7 @@ func runC20(c *config) {
 		c20CheckModule(c, r, m, i < 1)
 	}
 	c20Escaped(c, r)
+	c20Bytes(c, newRng(c.seed, "c20bytes")) // one-byte differences over the whole byte range, independent reference order (c20bytes.go)
 }
 
 func c20Digits(r *rng) string {
@@ -639,6 +640,13 @@ func c20Replay(c *config) {
 	}
 	o := c.out
 	switch rp.Oracle {
+	case "bytewise_outside_digits", "reference_order":
+		a, b := get("a"), get("b")
+		gen := 0
+		if !c20HasDigit(a) && !c20HasDigit(b) {
+			gen = strings.Compare(a, b)
+		}
+		c20Pair(c, a, b, gen)
 	case "irreflexive", "asymmetric", "total", "transitive", "numeric":
 		var ss []string
 		for _, k := range []string{"a", "b", "c", "s", "t"} {
